@@ -26,9 +26,10 @@ var shimBase = "github.com/atlassian/gostatsd/internal/verif/"
 var importRewrite = map[string]string{
 	"sync":                         "vsync",
 	"github.com/ash2k/stager/wait": "vwait",
+	"github.com/ash2k/stager":      "vstager",
 	"golang.org/x/sync/errgroup":   "verrgroup",
 }
-var importName = map[string]string{"sync": "sync", "github.com/ash2k/stager/wait": "wait", "golang.org/x/sync/errgroup": "errgroup"}
+var importName = map[string]string{"sync": "sync", "github.com/ash2k/stager/wait": "wait", "github.com/ash2k/stager": "stager", "golang.org/x/sync/errgroup": "errgroup"}
 
 var timeFuncs = map[string]bool{"Now": true, "Since": true, "After": true, "NewTimer": true, "NewTicker": true, "Sleep": true, "AfterFunc": true, "Until": true, "Tick": true}
 
